@@ -460,6 +460,9 @@ func (router_info *RouterInfo) AddAddress(address *router_address.RouterAddress)
 // RouterCapabilities returns the capabilities string for this RouterInfo.
 func (router_info *RouterInfo) RouterCapabilities() string {
 	log.Debug("Retrieving RouterCapabilities")
+	if router_info == nil || router_info.options == nil {
+		return ""
+	}
 	str, err := data.ToI2PString("caps")
 	if err != nil {
 		log.WithError(err).Error("Failed to create I2PString for 'caps'")
@@ -474,6 +477,9 @@ func (router_info *RouterInfo) RouterCapabilities() string {
 // RouterVersion returns the version string for this RouterInfo.
 func (router_info *RouterInfo) RouterVersion() string {
 	log.Debug("Retrieving RouterVersion")
+	if router_info == nil || router_info.options == nil {
+		return ""
+	}
 	str, err := data.ToI2PString("router.version")
 	if err != nil {
 		log.WithError(err).Error("Failed to create I2PString for 'router.version'")
